@@ -189,7 +189,11 @@ def builtin_cases(draw, tier):
         X = [[float(np.float32(v + 1000.0)) for v in row] for row in X]  # the numbers a float32 array holds (a level of 1000)
     if counts:
         X = [[float(round((v / unit + 14) * 2e7)) for v in row] for row in X]
-    return {"cost": cost, "msl": msl, "X": X, "penalty_scale": scale * (4e14 if counts else 1.0), "history": history, "counts_int64": counts, "as_float32": as32}
+    # the detector may have been fitted on a reference recording with another number of channels: the segmentation is
+    # optimal for the fitted penalty_ (drawn structure: the value depends on earlier draws only)
+    train_cols = (None, None, None, "fewer_columns", "more_columns")[(n + msl + p) % 5] if cost != "GaussianCovCost" and history is None else None
+    return {"cost": cost, "msl": msl, "X": X, "penalty_scale": scale * (4e14 if counts else 1.0), "history": history, "counts_int64": counts, "as_float32": as32,
+            "train_cols": train_cols}
 
 
 def check_builtin(case):
@@ -232,7 +236,12 @@ def check_builtin(case):
             Xd = X.astype(np.int64) if case.get("counts_int64") else X  # the detector gets integers, the reference floats
             if case.get("as_float32"):
                 Xd = X.astype(np.float32)
-            det.fit(Xd)
+            if case.get("train_cols") == "fewer_columns" and p > 1:
+                det.fit(Xd[:, :1].copy())
+            elif case.get("train_cols") == "more_columns":
+                det.fit(np.hstack([Xd, Xd[::-1]]))
+            else:
+                det.fit(Xd)
             Xp = K.used_buffer(det, Xd, history.endswith("frame")) if history and history.startswith("used_buffer") else Xd
             if history and history.startswith("predicted_on"):
                 K.related_predict(det, Xd, history)
@@ -250,7 +259,8 @@ def check_builtin(case):
         return float(T[s, e])
 
     classes = [f"cost={case['cost']}", f"p={p}"] + ([f"history={history}"] if history else []) + \
-        (["int64_counts"] if case.get("counts_int64") else []) + (["float32_on_a_level"] if case.get("as_float32") else [])
+        (["int64_counts"] if case.get("counts_int64") else []) + (["float32_on_a_level"] if case.get("as_float32") else []) + \
+        (["fitted_on_other_number_of_columns"] if case.get("train_cols") and (p > 1 or case["train_cols"] == "more_columns") else [])
     scale = float(np.nanmax(np.abs(T))) + penalty
     tol = 1e-9 * (1.0 + scale)
     # precondition of the property: splitting never increases the cost (on this table)
